@@ -9,7 +9,7 @@ def nontrivial(p, line):
 
 
 def run(tier, seed):
-    return pipe.run_property("C02", tier, seed, ['hall', 'super'], PROPS,
+    return pipe.run_property("C02", tier, seed, ['hall', 'super', 'lowsym'], PROPS,
                              {"rule": 'every Hall setting (own + re-described) and supercells; non-trivial when a dataset was returned for a group of order >= 2 in a re-described or supercell input; completeness is judged against the group constructed from the regenerated Hall table conjugated by the recorded re-description'},
                              nontrivial, stages=["s4"],
                              trusted=["premise validation of the generator (the generated crystal has exactly the generating group, symmetry gap >= 0.2 A) is a brute-force search in Rust, independent of moyo",
